@@ -134,7 +134,15 @@ def judge_c05(obs: L.Obs) -> list[tuple[str, str]]:
         out.append(("C05/is_connected-mismatch", b))
     for c in obs.calls:
         if c.outcome == "ok" and c.name in ("start", "finish", "connect") and obs.conns:
-            v = obs.conns[0]
+            # the connection this call worked on: the one it created (start/connect) or the newest one existing when it was entered (finish)
+            if c.name == "finish":
+                cand = [v for v in obs.conns if v.created_seq < c.seq_call][-1:]
+            else:
+                cand = [v for v in obs.conns if c.seq_call < v.created_seq < c.seq_ret][:1]
+            if not cand:
+                _stat(f"c05/return-state-unattributed/{c.name}")
+                continue
+            v = cand[0]
             st = state_at(v, c.seq_ret)
             want = "SOCKET_OPENED" if c.name == "start" else "CONNECTED"
             _stat(f"c05/return-state-checked/{c.name}")
@@ -177,6 +185,20 @@ def judge_c07(obs: L.Obs) -> list[tuple[str, str]]:
     for v in obs.conns:
         final = v.obj.connection_state.name
         n = len(v.on_stop)
+        # the application's own callback for THIS session (client level), next to the hook the connection object calls
+        tag = obs.session_tag.get(v.idx)
+        if tag is not None:
+            mine = [x for x in obs.user_on_stop if x[2] == tag]
+            _stat(f"c07/user-callback/connected={v.connected_seq is not None}/final={final}/calls={len(mine)}")
+            if v.connected_seq is None and mine:
+                out.append(("C07/on_stop-without-connected", f"the application's stop callback of session {tag} was called {len(mine)}x but CONNECTED was never reached"))
+            if len(mine) > 1:
+                out.append(("C07/on_stop-multiple", f"the application's stop callback of session {tag} was called {len(mine)}x"))
+            if v.connected_seq is not None and final == "CLOSED" and n == 1 and not mine:
+                out.append(("C07/on_stop-missing/application-callback", f"session {tag} (connection {v.idx}) reached CONNECTED and is CLOSED, the connection's stop hook ran, but the stop "
+                            f"callback the application passed for this session was never invoked (cause {cause_tag(obs)})"))
+            if mine and n == 1 and mine[0][3] is not v.on_stop[0][2]:
+                out.append(("C07/on_stop-argument-changed", f"session {tag}: connection reported on_stop({v.on_stop[0][2]}) but the application's callback received {mine[0][3]}"))
         _stat("c07/connections_judged")
         _stat(f"c07/connected={v.connected_seq is not None}/on_stop_calls={n}/final={final}")
         if v.connected_seq is None:
@@ -626,6 +648,37 @@ def raising_on_stop_sweep(ctx: Ctx, prop: str) -> None:
                     faults = [{"kind": cause, "point": {"t": t0 + 1.0}, "posclass": "raising-on_stop"}]
                 spec = S(framing=framing, keepalive=keepalive, program=prog, on_stop_mode="raises", faults=faults)
                 record(ctx, prop, run_spec(spec), "raising-on_stop")
+
+
+def reconnect_in_on_stop_sweep(ctx: Ctx, prop: str) -> None:
+    """Several sessions on ONE client object, each next one opened from inside the stop callback of the previous one (at once, i.e. still
+    inside the closing connection's clean-up, or after one yield).  Every session has its own callback: each must be invoked exactly once."""
+    S = L.default_spec
+    t0 = L.core_start()
+    idx = 0
+    causes = ("force", "disconnect", "eof", "rst", "garbage", "bad_pb", "peer_disconnect", "silence", "sendfail+cmd")
+    for framing in ("plain", "noise"):
+        for mode in ("reconnect", "reconnect-after-yield"):
+            for reconnects in (1, 2):
+                for first in causes:
+                    for second in causes:
+                        idx += 1
+                        if not ctx.mine(idx):
+                            continue
+                        if reconnects == 2 and (idx % 3):
+                            continue
+                        faults: list[dict[str, Any]] = []
+                        t = t0 + 1.0
+                        for cause in (first, second) + ((first,) if reconnects == 2 else ()):
+                            if cause == "sendfail+cmd":
+                                faults += [{"kind": "sendfail", "point": {"t": t}, "posclass": "reconnect-in-on_stop"}, {"kind": "cmd", "point": {"t": t + 0.1}, "posclass": "reconnect-in-on_stop"}]
+                            else:
+                                faults.append({"kind": cause, "point": {"t": t}, "posclass": "reconnect-in-on_stop"})
+                            t += 12.0   # (a silenced device ends a session by ping timeout: 1 s keep-alive -> ~6.5 s)
+                        if "silence" in (first, second):
+                            continue    # silence reconfigures the device for good: the next session could not be established
+                        spec = S(framing=framing, keepalive=1.0, program=[["connect"], ["sleep", 45.0]], on_stop_mode=mode, reconnects=reconnects, faults=faults)
+                        record(ctx, prop, run_spec(spec), "reconnect-in-on_stop")
 
 
 def connect_fault_sweep(ctx: Ctx, prop: str) -> None:
